@@ -1275,15 +1275,16 @@ impl<'a> Runner<'a> {
                 self.transcript.push(Res::Err(kind.clone()));
                 let live_blocks: u64 = self.model.map.iter().map(|(k, g)| layout::record_blocks(self.cfg.version, k.len(), g.value.len()) as u64).sum();
                 let data_blocks = self.cfg.dev.blocks() - 16;
-                // OutOfSpace is justified exactly when some unflushed live record does not fit into
-                // the largest free run left once everything releasable has been released
+                // OutOfSpace is justified exactly when the unflushed live records cannot all be
+                // placed into the free runs left once everything releasable has been released
                 let snap = self.store().verif_snapshot();
-                let largest_free = snap.free_runs.iter().map(|(_, n)| *n).max().unwrap_or(0);
-                let unfit = snap
-                    .records
-                    .iter()
-                    .filter(|r| r.sector == 0)
-                    .any(|r| layout::record_blocks(snap.format_version, r.key.len(), r.value_len) as u64 > largest_free);
+                if std::env::var("FXV_DEBUG_FLUSH").is_ok() {
+                    eprintln!("flush error {e:?}: free runs {:?}; records {:?}; pending per shard {:?}; retirements pending {}", snap.free_runs, snap.records.iter().map(|r| (model::short(&r.key), r.sector, layout::record_blocks(snap.format_version, r.key.len(), r.value_len), r.timestamp)).collect::<Vec<_>>(), snap.shard_pending, snap.retirements_pending);
+                }
+                let (unfit, single_unfit) = pending_cannot_fit(&snap);
+                if unfit && !single_unfit {
+                    self.stats.hit("flush_out_of_space_batch_does_not_fit_together");
+                }
                 // an Io error needs a fault consumed during this flush; an indeterminate error may
                 // stem from any earlier fault (a background flush may have poisoned the device)
                 let faulted = match (&self.fault_dev, faults_before) {
@@ -1552,6 +1553,32 @@ pub fn run_case(case: &Case, flags: &Flags) -> RunOutput {
             }
         }
     }
+}
+
+/// Can the records that are still unflushed be placed? Returns (some placement of all of them
+/// fails, a single one exceeds the largest free run). A shard's batch is allocated as a whole and
+/// rolled back as a whole, and the extents of the generations the pending records replace only
+/// become free after their successors are durable - so OutOfSpace is justified whenever the pending
+/// records cannot all be placed together (best fit, tried in queue, ascending and descending order).
+pub fn pending_cannot_fit(snap: &feoxdb::core::store::verif::VerifSnapshot) -> (bool, bool) {
+    let largest_free = snap.free_runs.iter().map(|(_, n)| *n).max().unwrap_or(0);
+    let pending: Vec<u64> = snap.records.iter().filter(|r| r.sector == 0).map(|r| layout::record_blocks(snap.format_version, r.key.len(), r.value_len) as u64).collect();
+    let place_all = |order: &[u64]| -> bool {
+        let mut runs: Vec<u64> = snap.free_runs.iter().map(|(_, n)| *n).collect();
+        for need in order {
+            match runs.iter_mut().filter(|n| **n >= *need).min_by_key(|n| **n) {
+                Some(run) => *run -= *need,
+                None => return false,
+            }
+        }
+        true
+    };
+    let mut asc = pending.clone();
+    asc.sort();
+    let mut desc = asc.clone();
+    desc.reverse();
+    let single = pending.iter().any(|b| *b > largest_free);
+    (single || !place_all(&pending) || !place_all(&asc) || !place_all(&desc), single)
 }
 
 pub fn _unused(_: &Gen) {}
